@@ -397,6 +397,114 @@ func init() {
 		}
 		return false
 	}})
+	// ---- signature-operation limits -------------------------------------
+	// Legacy sigops are counted over every script of the block (x4 cost);
+	// the limit is 80000 cost = 20000 legacy sigops.  The padding output is a
+	// bare script of OP_CHECKMULTISIG (20 each) and OP_CHECKSIG (1 each).
+	sigops := func(name, class string, total int, needWitnessIn bool) {
+		reg(&mutation{name: name, class: class, txs: func(bp *blockPlan) bool {
+			wit := 0
+			for _, t := range bp.txs {
+				for _, r := range t.InRecs {
+					if r != nil && r.Kind == KP2WPKH {
+						wit++
+					}
+				}
+			}
+			if needWitnessIn {
+				if !bp.segwit {
+					return false
+				}
+				if wit == 0 {
+					found := false
+					for _, op := range bp.candidates() {
+						if rec := bp.rec(op); rec.Kind == KP2WPKH {
+							bp.simpleSpend(op, rec, 0, nil)
+							found = true
+							break
+						}
+					}
+					if !found {
+						return false
+					}
+				}
+			} else if wit != 0 {
+				return false
+			}
+			bp.sigopTarget = total
+			return true
+		}})
+	}
+	sigops("sigops-at-limit", ClsValid, 20000, false)
+	sigops("sigops-one-over-limit", ClsSanity, 20001, false)
+	// exactly at the legacy limit plus one witness sigop: only the precise
+	// cost computed at connect time exceeds the limit
+	sigops("sigop-cost-over-via-witness-input", ClsConnect, 20000, true)
+
+	// ---- block size ------------------------------------------------------
+	reg(&mutation{name: "block-base-size-at-limit", class: ClsValid, pre: func(bp *blockPlan) bool {
+		for _, t := range bp.txs {
+			if t.HasWit {
+				return false
+			}
+		}
+		bp.sizeTarget = 1000000
+		return true
+	}})
+	reg(&mutation{name: "block-base-size-one-over", class: ClsSanity, pre: func(bp *blockPlan) bool {
+		for _, t := range bp.txs {
+			if t.HasWit {
+				return false
+			}
+		}
+		bp.sizeTarget = 1000001
+		return true
+	}})
+
+	// ---- BIP30 (networks without BIP34 only) -----------------------------
+	bip30 := func(name, class string, wantSpent bool) {
+		reg(&mutation{name: name, class: class, pre: func(bp *blockPlan) bool {
+			if bp.height >= bp.w.Net.BIP34 || bp.parent.View == nil {
+				return false
+			}
+			for _, t := range bp.txs {
+				if t.HasWit {
+					return false
+				}
+			}
+			sub := subsidyAt(bp.height, bp.w.Net.SubsidyInterval)
+			for a := bp.parent; a != nil && a.Height > 0; a = a.Parent {
+				cb := a.Txs[0].Msg
+				if len(cb.TxIn[0].Witness) != 0 {
+					continue
+				}
+				var val int64
+				unspent, spendable := 0, 0
+				for i, o := range cb.TxOut {
+					val += o.Value
+					if unspendable(o.PkScript) {
+						continue
+					}
+					spendable++
+					// (judged against the state BEFORE this block: an output
+					// spent by this very block still counts as unspent)
+					if _, ok := bp.view[wire.OutPoint{Hash: a.Txs[0].Hash, Index: uint32(i)}]; ok {
+						unspent++
+					}
+				}
+				if val > sub || spendable == 0 {
+					continue
+				}
+				if (wantSpent && unspent == 0) || (!wantSpent && unspent > 0) {
+					bp.cbClone = cb.Copy()
+					return true
+				}
+			}
+			return false
+		}})
+	}
+	bip30("bip30-overwrite-unspent-coinbase", ClsConnect, false)
+	bip30("bip30-recreate-fully-spent-coinbase", ClsValid, true)
 	_ = chaincfg.DeploymentCSV
 }
 
